@@ -42,19 +42,19 @@ func boolsFlags(f Bools) Flags {
 //@ theory bv
 //@ property C19 C20
 //@ prepare dst.Presence &^= 1; dst.Values &= dst.Presence; src.Presence &^= 1; src.Values &= src.Presence
-//@ requires dst != nil && wfFlags(*dst) && wfFlags(src)
+//@ requires dst != nil
 //@ modifies *dst
 //@ ensures equals-spec: *dst == joinSpec(old(*dst), src)
-//@ ensures wf: wfFlags(*dst)
+//@ ensures wf: wfFlags(old(*dst)) && wfFlags(src) ==> wfFlags(*dst)
 
 //@ func (*Flags).Set
 //@ theory bv
 //@ property C19 C20
 //@ prepare fs.Presence &^= 1; fs.Values &= fs.Presence
-//@ requires fs != nil && wfFlags(*fs)
+//@ requires fs != nil
 //@ modifies *fs
 //@ ensures equals-join: *fs == joinSpec(old(*fs), boolsFlags(f))
-//@ ensures wf: wfFlags(*fs)
+//@ ensures wf: wfFlags(old(*fs)) ==> wfFlags(*fs)
 
 //@ func (Flags).Get
 //@ inline
